@@ -38,7 +38,7 @@ def rule_mem(crate, prop, tier):
         "by_strategy": by_how, "trusted_sites": sorted({site_key(crate, s) for s in trusted}),
         "trusted_unused": [e["fn"] + "|" + e["kind"] + "|" + e["root"] for e in unused],
         "distinct_nontrivial": len({site_key(crate, s) for s in interesting}),
-        "floors": {"bodies analysed": (len(crate.prog.d["fns"]), 600)},
+        "floors": {"bodies analysed": (len(crate.prog.d["fns"]), 300)},
         "note": "functions with unsafe operations=%d trusted=%d" % (len(fns), len(trusted)),
     }
 
@@ -113,6 +113,8 @@ RULES = {
     "CONC-PRED": _mod("conc", "rule_conc", ["is_semicomplete"]),
     "CONC-COMPLETE": _mod("conc", "rule_conc", ["complete"]),
     "CONC-SEEDED": _mod("conc", "rule_conc", ["erdos_renyi", "random_tournament"]),
+    "DEFN-QUERIES": _mod("defn", "rule_defn", "queries"),
+    "DEFN-PREDS": _mod("defn", "rule_defn", "preds"),
     "FIELDS": _mod("rules3", "rule_fields"),
     "LEAK": _mod("rules3", "rule_leak"),
     "MEM-SEARCH": _mod("rules", "rule_mem_subset", ["search_by"]),
@@ -150,15 +152,21 @@ TB = ["rustc MIR + trait solver", "gsa-driver fact exporter", "gsa/effects.py st
 
 PROPERTY_RULES = {
     "C02": {
-        "rules": ["PURE", "TOTAL", "IDSRC"],
+        "rules": ["PURE", "TOTAL", "IDSRC", "DEFN-QUERIES"],
         "explanation": "Queries cannot change the digraph: the five representations are Freeze and in every body that receives a "
                        "digraph by shared reference no store, raw-pointer write or *const->*mut cast targets memory behind that "
                        "reference (PURE). The 21 documented-total queries (has_arc, has_edge, has_walk, arc_weight, remove_arc) "
                        "have every panic-capable site (index, unwrap, overflow assert, explicit panic) in them and their crate "
                        "callees discharged for arbitrary arguments (TOTAL). AdjacencyMap's own &self methods never use a count "
-                       "(order/size/position) as a vertex id (IDSRC).",
+                       "(order/size/position) as a vertex id (IDSRC). Derived queries agree with their definition over the "
+                       "primitive ones (DEFN): has_edge is has_arc(u,v) AND has_arc(v,u) as a truth table over its call atoms, "
+                       "degree = indegree + outdegree, is_pendant = (degree == 1), default is_sink/is_source = (out/indegree == 0), "
+                       "is_isolated = is_sink AND is_source, sinks/sources filter vertices() by is_sink/is_source, the "
+                       "semidegree/outdegree sequences map vertices() to (indegree, outdegree) / outdegree.",
         "trusted_base": TB + ["lemma L-ROWMAJOR for the bit-matrix cell index"],
-        "not_decided": "the numeric value of every query (indegree, degree sequences, has_walk's truth value, ...): value-level",
+        "not_decided": "the value of the primitive queries themselves (order, size, has_arc, indegree, outdegree, neighbours, "
+                       "has_walk's truth value, the threaded degree_sequence): value-level; a derived query rewritten so that it "
+                       "no longer calls the primitive queries is reported as not decided, not as a violation",
         "assumptions": COMMON_ASSUMPTIONS,
     },
     "C07": {
@@ -197,13 +205,19 @@ PROPERTY_RULES = {
         "assumptions": COMMON_ASSUMPTIONS,
     },
     "C12": {
-        "rules": ["IDSRC-PRED", "CONC-PRED", "MEM-AMAP-PRED"],
+        "rules": ["IDSRC-PRED", "CONC-PRED", "MEM-AMAP-PRED", "DEFN-PREDS"],
         "explanation": "Only the structural sites of the predicates are decided: AdjacencyMap::{is_semicomplete, is_tournament} "
                        "never index positional storage by vertex id and contain no undischarged unsafe site; the shared early-"
                        "exit flag of the parallel AdjacencyList::is_semicomplete is only ever stored `false` (monotone), its "
-                       "workers are scoped and read rows through bounds-discharged pointers.",
+                       "workers are scoped and read rows through bounds-discharged pointers. Predicates written over the "
+                       "primitive queries are compared with their definition (DEFN): the pair test of is_semicomplete is "
+                       "has_arc(u,v) OR has_arc(v,u) and of is_tournament XOR (truth tables over the call atoms), applied by "
+                       "all() over u in 0..order, v in u+1..order; is_symmetric / is_oriented test has_arc(v,u) / its negation for "
+                       "every arc (u,v); is_balanced tests indegree(u) == outdegree(u) for all vertices; is_spanning_subdigraph and "
+                       "is_subdigraph require d.has_arc(u,v) for every arc of self; is_superdigraph(d) = d.is_subdigraph(self).",
         "trusted_base": TB + ["lemma L-TILE"],
-        "not_decided": "every truth value (is_complete, is_regular, is_balanced, is_symmetric, is_oriented, sub/superdigraph): value-level",
+        "not_decided": "is_complete, is_regular, is_simple, the AdjacencyList/AdjacencyMap pair scans written over raw rows, the "
+                       "vertex-set clauses of sub/spanning subdigraph: value-level",
         "assumptions": COMMON_ASSUMPTIONS,
     },
     "C14": {
